@@ -50,6 +50,29 @@ def _is_self_attr(node, name):
     return isinstance(node, ast.Attribute) and isinstance(node.value, ast.Name) and node.value.id == "self" and node.attr == name
 
 
+SEP_TEST = _dump(_stmt("if self.as_sql and self.batch_separator:\n    pass").test)
+SEP_OUT = _dump(_stmt("self.static_output(self.batch_separator)"))
+
+
+def _emit_actions(stmt, meth, where):
+    """one statement of an emit_xxx body -> list of actions"""
+    if _dump(stmt) == SEP_IF:
+        return [("ASepIfSql",)]
+    if isinstance(stmt, ast.If) and _dump(stmt.test) == SEP_TEST and not stmt.orelse:
+        # `if self.as_sql and self.batch_separator:` around recognised statements
+        out = []
+        for inner in stmt.body:
+            if _dump(inner) == SEP_OUT:
+                out.append(("ASepIfSql",))
+            else:
+                a = _emit_action(inner, meth, where)
+                if a[0] == "ASepIfSql":
+                    raise TranslatorError("%s.%s: nested separator guard" % (where, meth))
+                out.append(("AG" + a[0][1:],) + a[1:])
+        return out
+    return [_emit_action(stmt, meth, where)]
+
+
 def _emit_action(stmt, meth, where):
     if _dump(stmt) == SEP_IF:
         return ("ASepIfSql",)
@@ -87,7 +110,8 @@ def _assigned_self_attrs(fn):
 
 def _class(cd, modname):
     where = "%s.%s" % (modname, cd.name)
-    rec = {"name": cd.name, "module": modname, "bases": [], "attrs": {}, "begin": None, "commit": None, "exec_sep": None}
+    rec = {"name": cd.name, "module": modname, "bases": [], "attrs": {}, "begin": None, "commit": None, "exec_sep": None,
+           "sep_opt": None}
     for b in cd.bases:
         if isinstance(b, ast.Name):
             rec["bases"].append(b.id)
@@ -112,7 +136,7 @@ def _class(cd, modname):
                 raise TranslatorError("%s.%s is decorated" % (where, node.name))
             body = _strip_doc(node.body)
             if node.name in ("emit_begin", "emit_commit"):
-                acts = [_emit_action(s, node.name, where) for s in body]
+                acts = [a for s in body for a in _emit_actions(s, node.name, where)]
                 if not acts:
                     raise TranslatorError("%s.%s has an empty body" % (where, node.name))
                 rec["begin" if node.name == "emit_begin" else "commit"] = acts
@@ -153,7 +177,9 @@ def _class(cd, modname):
                         if (isinstance(v, ast.Call) and isinstance(v.func, ast.Attribute) and v.func.attr == "get"
                                 and _is_self_attr(v.func.value, "context_opts") and len(v.args) == 2
                                 and isinstance(v.args[0], ast.Constant) and _is_self_attr(v.args[1], "batch_separator")
-                                and _dump(_strip_doc(node.body)[0]) == SUPER_INIT):
+                                and _dump(_strip_doc(node.body)[0]) == SUPER_INIT
+                                and isinstance(v.args[0].value, str)):
+                            rec["sep_opt"] = v.args[0].value
                             continue
                     raise TranslatorError("%s.%s assigns self.%s in an unrecognised way" % (where, node.name, attr))
     return rec
@@ -225,7 +251,7 @@ def _opt(v, f):
 
 
 def _act(a):
-    if a[0] in ("AStatic", "AExec"):
+    if a[0] in ("AStatic", "AExec", "AGStatic", "AGExec"):
         return "%s %s (* %r *)" % (a[0], _s(a[1]), a[1])
     return a[0]
 
@@ -245,6 +271,7 @@ def render(recs):
             "    %s (* transactional_ddl *)\n"
             "    %s (* command_terminator %r *)\n"
             "    %s (* batch_separator %r *)\n"
+            "    %s (* option %r *)\n"
             "    %s (* _exec *)\n"
             "    %s\n"
             "    %s" % (
@@ -253,6 +280,7 @@ def render(recs):
                 _opt(a.get("transactional_ddl"), lambda b: "true" if b else "false"),
                 _opt(a.get("command_terminator"), _s), a.get("command_terminator"),
                 _opt(a.get("batch_separator"), _s), a.get("batch_separator"),
+                ("(Some false)" if r["parent"] is None else _opt(True if r["sep_opt"] else None, lambda b: "true")), r["sep_opt"],
                 _opt(r["exec_sep"], lambda b: "true" if b else "false"),
                 _opt(r["begin"], lambda acts: "[" + "; ".join(_act(x) for x in acts) + "]"),
                 _opt(r["commit"], lambda acts: "[" + "; ".join(_act(x) for x in acts) + "]")))
@@ -261,6 +289,7 @@ def render(recs):
     lines.append("Definition nclasses : nat := %d%%nat." % len(recs))
     lines.append("Definition dialects : list (option dialect) := resolve_all classes.")
     lines.append("Definition dget (i:nat) : dialect := dialect_of classes i.")
+    lines.append("Definition dget_sep (i:nat) (s:list N) : dialect := dialect_of_sep classes i (Some s).")
     return "\n".join(lines) + "\n"
 
 
